@@ -29,12 +29,16 @@ func (v *AddPublicKeysValidator) Validate(p patch.Patch) error {
 		return err
 	}
 
-	_, err = getRequiredArray(value)
+	arr, err := getRequiredArray(value)
 	if err != nil {
 		return fmt.Errorf("invalid add public keys value: %s", err.Error())
 	}
 
 	publicKeys := document.ParsePublicKeys(value)
+
+	if err := allEntriesRead(len(publicKeys), arr, "public keys", "objects"); err != nil {
+		return err
+	}
 
 	return validatePublicKeys(publicKeys)
 }
